@@ -182,7 +182,7 @@ def fat_stream(rng, pid, big_ones=True):
             for pre in (0, 1, n // 2, n):
                 for mid in (["chunk 2 1"], ["bufnew 3", "bufnext 1", "bufnext all"], ["skip"], []):
                     c = make_source(rng, "%s-fat%d" % (pid, i), kind, n, hint=rng.choice(["exact", "inexact"]))
-                    c.fat = 128
+                    c.fat = 128 if i % 2 else 2048
                     c.threads = [["next"] * pre + list(mid)]
                     if rng.random() < 0.4:
                         c.threads.append(["next", "chunk 2 all"])
@@ -518,7 +518,7 @@ def phase_stream(rng, pid, tail=None):
     cases = []
     i = 0
     progs = [[["next", "next"], ["next", "next"]], [["next", "hasmore"], ["chunk 2 all", "next"]], [["next", "next"], ["bufnew 2", "bufnext all"]]]
-    for hint in ("inexact", "unbounded", "exact", "upper"):
+    for hint in ("inexact", "unbounded", "exact", "upper", "inverted"):
         for pr in progs:
             for a in range(3, 11):
                 for b in range(3, 10):
@@ -1236,6 +1236,12 @@ def stream_for0(pid, tier, seed):
         for i, (n, take) in enumerate(((1 << 33, "0"), ((1 << 32) + 5, "1"), (1 << 35, "0"))):
             c = Case("C19-long%d" % i, "range", start=7, stop=7 + (1 << 36), owner="drop")
             c.threads = [["next", "chunk %d %s" % (n, take), "clone 1", "len", "@1 len", "@1 next", "next", "@1 chunk 3 all", "clone 2", "@2 next"]]
+            c.tags = {"implonly", "nomodel"}
+            longs.append(c)
+        # ... and beyond isize::MAX on the longest range there is
+        for i, n in enumerate(((1 << 63) + 5, (1 << 63) - 1, MAXW - 9)):
+            c = Case("C19-vlong%d" % i, "range", start=0, stop=MAXW, owner="drop")
+            c.threads = [["next", "chunk %d 0" % n, "clone 1", "len", "@1 len", "@1 next", "next", "@1 chunk 3 all", "clone 2", "@2 next", "@2 hasmore"]]
             c.tags = {"implonly", "nomodel"}
             longs.append(c)
         return longs + multi_stream(rng, tier) + [c for c in huge_then_skip_stream(rng, pid, clones=True) if c.kind in ("slice", "range", "vecref") and c.adapt == "none"]
